@@ -1433,7 +1433,8 @@ def grammar(tier):
     is_c = [x for x in d1 if x[0] != "Union" and all(a in ("int", "str") for a in x[1:])]
     if tier == "quick":  # Tuple[., ...] / Dict[int, .] mirror List / Dict[str, .]: thorough tier only
         is_c = [x for x in is_c if x[0] not in ("TupleVar", "DictInt")]
-    group("G2 Union of two int/str containers", [["Union", x, y] for x, y in itertools.combinations(is_c, 2)])
+    is_c2 = is_c if tier == "thorough" else [x for x in is_c if x[0] != "Set"]  # quick: Set[.] mirrors List[.] here
+    group("G2 Union of two int/str containers", [["Union", x, y] for x, y in itertools.combinations(is_c2, 2)])
     is_c3 = is_c if tier == "thorough" else [x for x in is_c if x[0] in ("List", "Dict")]  # quick: List / Dict[str,.] only
     group("G2 Union triples with a container", [["Union", x, y, "none"] for x in is_c3 for y in ("str", "int")])
     # G_3 / G_4: int/str skeletons over {List, Dict[str,.], Tuple[.,.], Optional, Union}
